@@ -146,6 +146,9 @@ def ev(e, ctx):
     if op == 'isenum':
         x = ev(e[1], ctx)
         return x is not None and getattr(x, 'name', None) == e[2]
+    if op == 'iseq':                    # x == <this form's own constant of the enumeration> (identity of members, not names)
+        x = ev(e[1], ctx)
+        return ctx.same_member(x, ctx.enum_member(e[2], e[3]))
     if op == 'len':
         return len(text(ev(e[1], ctx)))
     if op == 'cat':
@@ -282,6 +285,9 @@ class RealCtx(object):
 
     def enum_member(self, ename, member):
         return self.enums[ename][member]
+
+    def same_member(self, x, c):
+        return x is not None and x == c
 
     def other_enum_member(self, ename):
         for n in sorted(self.enums):
